@@ -273,13 +273,17 @@ def run(chk):
         # (a loaded component that directly depends on another loaded component of the graph is the shape DESIGN §6 leaves
         # out on purpose: the pruning loop of dr.run raises KeyError on it, by ruling not held against the code)
         _nested = any(d in _sset and d in graph for c in graph if c in _sset for d in graph[c])
-        if idx % 10 == 5 and not _nested:
+        if idx % 10 == 5 and not _nested and not WI.too_costly("process_dir"):
             # GLUE: the stand-alone entry point on a directory (insights._run -> process_dir -> initialize_broker), serial and
             # on its thread pool: both hand the caller's broker back and agree with each other
             arch = []
             for par in (False, True):
-                ab, _att, awhy, aerr = W.archive_entry(world, graph, seeds, [], ss, parallel=par)
                 acase = dict(base_case, order=None, schedule="process_dir(parallel=%s)" % par)
+                _res, _err = WI.guarded_call(world, graph, None, lambda: W.archive_entry(world, graph, seeds, [], ss, parallel=par))
+                if _err is not None:
+                    chk.failure("insights._run on a directory (parallel=%s) %s" % (par, _err if isinstance(_err, str) else "raised %r" % (_err,)), acase)
+                    continue
+                ab, _att, awhy, aerr = _res
                 if aerr is not None:
                     chk.failure("insights._run on a directory (parallel=%s) raised %r" % (par, aerr), acase)
                 elif awhy:
@@ -394,12 +398,25 @@ def default_child(seed, idx):
     world = W.World(spec, "c04default_%d_%d" % (seed, idx))
     out = {"spec": W.strip(spec), "seeds": seeds, "store_skips": ss, "results": {}}
 
+    try:
+        budget = 3 * len(dr.run_order(dict((k, set(v)) for k, v in dr.COMPONENTS[dr.GROUPS.single].items()))) + 50
+    except Exception:
+        budget = 5000
+    stopped = [0]
+
     def go(name, fn):
+        if stopped[0] and "pool" in name:
+            out["results"][name] = "raised: not run (an earlier schedule was stopped)"
+            return
         b = world.new_broker(seeds, ss)
         W.instrument(world, b)
         try:
-            fn(b)
+            with WI.firing_budget(budget, b):
+                fn(b)
             out["results"][name] = plain(W.canon_broker(world, b))
+        except WI.Abort as ab:
+            stopped[0] += 1
+            out["results"][name] = "raised: stopped, %s" % (ab,)
         except Exception as ex:
             out["results"][name] = "raised %r" % (ex,)
     go("run()", lambda b: dr.run(broker=b))
@@ -410,8 +427,12 @@ def default_child(seed, idx):
 
     # the same entry points WITHOUT a broker: the brokers handed back, taken together, against one pass on an empty broker
     def go_fresh(name, fn):
+        if stopped[0] and "pool" in name:
+            out["results"][name] = "raised: not run (an earlier schedule was stopped)"
+            return
         try:
-            bs = fn()
+            with WI.firing_budget(budget):
+                bs = fn()
             if not isinstance(bs, list):
                 bs = [bs]
             bad = [WI.shape_problem(b) for b in bs if WI.shape_problem(b)]
@@ -425,6 +446,9 @@ def default_child(seed, idx):
             if dup:
                 text += " DUPLICATED%s" % (dup,)
             out["results"][name] = text
+        except WI.Abort as ab:
+            stopped[0] += 1
+            out["results"][name] = "raised: stopped, %s" % (ab,)
         except Exception as ex:
             out["results"][name] = "raised %r" % (ex,)
     go_fresh("nobroker:run()", lambda: dr.run())
